@@ -208,3 +208,31 @@ impl MapStore {
         (reply, inserted.into_inner())
     }
 }
+
+// ---- H4: dials of the live actor are recorded instead of performed ---------------------------
+
+thread_local! {
+    static DIALS: std::cell::RefCell<Option<Vec<(crate::NamespaceId, iroh::PublicKey, crate::engine::SyncReason)>>> =
+        const { std::cell::RefCell::new(None) };
+}
+
+/// Start (or stop) recording the dials `sync_with_peer` decides to make on this thread.
+pub fn set_dial_recording(on: bool) {
+    DIALS.with(|d| *d.borrow_mut() = if on { Some(Vec::new()) } else { None });
+}
+
+/// Take the dials recorded so far.
+pub fn take_dials() -> Vec<(crate::NamespaceId, iroh::PublicKey, crate::engine::SyncReason)> {
+    DIALS.with(|d| d.borrow_mut().as_mut().map(std::mem::take).unwrap_or_default())
+}
+
+/// Returns true if the dial was recorded (recording is on).
+pub(crate) fn record_dial(namespace: crate::NamespaceId, peer: iroh::PublicKey, reason: crate::engine::SyncReason) -> bool {
+    DIALS.with(|d| match d.borrow_mut().as_mut() {
+        Some(v) => {
+            v.push((namespace, peer, reason));
+            true
+        }
+        None => false,
+    })
+}
